@@ -83,6 +83,10 @@ func (f *FnVC) run() {
 			f.fact(extra)
 		}
 	}
+	for _, d := range f.allDefers() {
+		f.fact(sNot(f.root.get(f.deferFlag(d))))
+	}
+	f.defers = f.allDefers()
 	for _, b := range f.order() {
 		f.block(b)
 	}
@@ -468,7 +472,7 @@ func (f *FnVC) instr(ins ssa.Instruction) {
 	case *ssa.Go:
 		f.goStmt(x)
 	case *ssa.Defer:
-		f.defers = append(f.defers, x)
+		f.setHeap(f.deferFlag(x), "true")
 	case *ssa.RunDefers:
 		f.runDefers(x)
 	case *ssa.MakeSlice:
@@ -1281,12 +1285,54 @@ func (f *FnVC) goStmt(x *ssa.Go) {
 func (f *FnVC) runDefers(x *ssa.RunDefers) {
 	for i := len(f.defers) - 1; i >= 0; i-- {
 		d := f.defers[i]
-		if !d.Block().Dominates(x.Block()) {
-			f.warn("conditional defer at %s treated as not run", f.posStr(d.Pos()))
+		if d.Block().Dominates(x.Block()) {
+			f.call(nil, d.Common(), d)
 			continue
 		}
-		f.call(nil, d.Common(), d)
+		// a defer registered on only some paths runs exactly on those: a ghost flag set at the defer statement
+		flag := f.st.get(f.deferFlag(d))
+		f.condExec(flag, func() { f.call(nil, d.Common(), d) })
 	}
+}
+
+func (f *FnVC) deferFlag(d *ssa.Defer) string {
+	idx := 0
+	for i, x := range f.allDefers() {
+		if x == d {
+			idx = i
+		}
+	}
+	return f.regHeap(fmt.Sprintf("Gh_$defer_%d", idx), "Bool")
+}
+
+func (f *FnVC) allDefers() []*ssa.Defer {
+	var out []*ssa.Defer
+	for _, b := range f.fn.Blocks {
+		for _, in := range b.Instrs {
+			if d, ok := in.(*ssa.Defer); ok {
+				out = append(out, d)
+			}
+		}
+	}
+	return out
+}
+
+// condExec runs fn as if guarded by `if flag { ... }`: obligations inside are gated by the flag and the
+// resulting state is the merge of "executed" and "skipped".
+func (f *FnVC) condExec(flag string, fn func()) {
+	idx := f.cur.Index
+	saved := f.reach[idx]
+	f.fresh++
+	rc := f.declConst(fmt.Sprintf("reach_%d_c%d", idx, f.fresh), "Bool")
+	f.fact(sEq(rc, sAnd(saved, flag)))
+	before := f.st
+	f.st = before.child()
+	f.reach[idx] = rc
+	fn()
+	after := f.st
+	f.reach[idx] = saved
+	f.st = &State{f: f, m: map[string]string{}, kind: stMerge, preds: []*State{after, before}, edges: []string{rc, sAnd(saved, sNot(flag))}, id: fmt.Sprintf("c%d", f.fresh)}
+	f.st = f.st.child()
 }
 
 func (f *FnVC) ret(x *ssa.Return) {
